@@ -49,9 +49,12 @@ def main():
     parse_single.__qualname__ = "parse_single"
     PM.parse_single = parse_single
     PM.Pool = functools.partial(multiprocessing.Pool, job["pool_size"])
+    tuples = set(job.get("tuple_names", []))
+
     def one_call(pairs):
         open(logp, "w").close()
-        inp = {k: v for k, v in pairs}
+        # some behaviours are handed over as tuples (what split_compounds returns) instead of lists
+        inp = {k: (tuple(v) if k in tuples else v) for k, v in pairs}
         t0 = time.time()
         out = PM.Parser.parse(inp)
         res = {"order": list(out.keys()), "entries": {}, "wall": time.time() - t0}
